@@ -417,6 +417,13 @@ def sync_hash_obs():
                note='every block state BLK/REP/CHG, recorded hash, digests of both kinds, hash size 2..16, migration flag; memhash by contract (arbitrary digest per kind)')]
 
 
+def fs_obs():
+    rp = ['fs_par2extent_get_unlock', 'fs_file2extent_get_unlock', 'tommy_tree_insert', 'tommy_tree_remove']
+    return [Ob('fs.deallocate', 'harness/h_fs.c', 'h_fs_deallocate', route='dfcc', replace=rp, unwind=4, small_path=True, object_bits=12, solver=KISSAT, timeout=1800, mem=8, cost=20, replay=False,
+               functions=['fs_deallocate (cmdline/elem.c)', 'extent_alloc (cmdline/elem.c)'],
+               note='every extent (parity position, file position, length) and every position inside it, probed at a symbolic position; tree operations and the extent finder by recording contracts (dfcc)')]
+
+
 def c06(tier, seed):
     Y = 'harness/h_sync.c'
     return [
@@ -427,7 +434,7 @@ def c06(tier, seed):
            solver=KISSAT, defs={'ND': 3 if tier == 'thorough' else 2}, timeout=3000, mem=8, cost=40, replay=False, kind='bounded', bound='2 disk slots (thorough: 3)',
            functions=['state_sync_process: region "proceed with the parity" .. "finally schedule parity write" (cmdline/sync.c, extracted mechanically)'],
            note='every combination of error / I/O error / silent / fixed / needs-update / rehash flags, block states and presence on 3 disks; callees replaced by recording contracts (dfcc)'),
-    ] + sync_fixchk_obs()
+    ] + sync_fixchk_obs() + fs_obs()
 
 
 def c05(tier, seed):
